@@ -20,7 +20,11 @@ import Zed.Model.LakePatch
 namespace Zed.Lake
 
 structure Cfg (K V : Type) where
+  /-- the pool key the comparator sees -/
   key : V → K
+  /-- `val.DerefPath(sortKey.Key).MissingAsNull()`: the key `data.Writer` records as Min/Max
+      and `SortedWriter` compares to decide where a new object may start -/
+  mkey : V → K
   /-- `compareValues(a, b, nullsMax = true) ≤ 0` on keys (ascending) -/
   kle : K → K → Bool
   /-- `bytes.Equal(a.Bytes(), b.Bytes())` on keys -/
@@ -49,8 +53,8 @@ def klt (cfg : Cfg K V) (a b : K) : Bool := cfg.kle a b && !cfg.kle b a
 def mkObj (cfg : Cfg K V) (id : Nat) (vals : List V) : Option (Obj K) :=
   match vals.head?, vals.getLast? with
   | some f, some l =>
-    let fk := cfg.key f
-    let lk := cfg.key l
+    let fk := cfg.mkey f
+    let lk := cfg.mkey l
     some (if cfg.desc then { id := id, min := lk, max := fk, count := vals.length }
           else { id := id, min := fk, max := lk, count := vals.length })
   | _, _ => none
@@ -68,10 +72,15 @@ def chunk (cfg : Cfg K V) (vals : List V) : List (List V) := chunkGo cfg vals []
 /-- `Comparator.SortStableReader` -/
 def sortVals (cfg : Cfg K V) (vals : List V) : List V := vals.mergeSort cfg.vle
 
+/-- `a` may precede `b` in pool-key order (asc or desc; keys only) -/
+def kvle (cfg : Cfg K V) (a b : V) : Bool :=
+  if cfg.desc then cfg.kle (cfg.key b) (cfg.key a) else cfg.kle (cfg.key a) (cfg.key b)
+
+/-- in pool-key order (keys only: the order among equal keys is not fixed, see C14) -/
 def isSorted (cfg : Cfg K V) : List V → Bool
   | [] => true
   | [_] => true
-  | a :: b :: r => cfg.vle a b && isSorted cfg (b :: r)
+  | a :: b :: r => kvle cfg a b && isSorted cfg (b :: r)
 
 /-- write one data object per part under fresh ids -/
 def writeObjs (cfg : Cfg K V) (s : State K V) : List (List V) → State K V × List (Obj K)
@@ -204,7 +213,7 @@ def validCuts (cfg : Cfg K V) : List (List V) → Bool
   | [_] => true
   | p :: q :: r =>
     (match p.getLast?, q.head? with
-     | some a, some b => !cfg.keq (cfg.key a) (cfg.key b)
+     | some a, some b => !cfg.keq (cfg.mkey a) (cfg.mkey b)
      | _, _ => false) && validCuts cfg (q :: r)
 
 /-- `Branch.Load` -/
@@ -304,6 +313,13 @@ def compact (cfg : Cfg K V) (s : State K V) (b : Nat) (ids : List Nat) (vec : Bo
               | .error e => .error e
               | .ok p3 => .ok (s1.commit b t p3.commitActions)
 
+/-- first error of a per-id check, in id order -/
+def checkIds (f : Nat → Option Err) : List Nat → Option Err
+  | [] => none
+  | i :: is => match f i with
+    | some e => some e
+    | none => checkIds f is
+
 /-- `Branch.AddVectors` (`data.CreateVector` reads the object's file first) -/
 def addVectors (s : State K V) (b : Nat) (ids : List Nat) : Except Err (State K V) :=
   match s.tip b with
@@ -313,9 +329,9 @@ def addVectors (s : State K V) (b : Nat) (ids : List Nat) : Except Err (State K 
     match snapAt s.commits t with
     | .error e => .error e
     | .ok snap =>
-      if !ids.all snap.hasObj then .error .notFound
-      else if ids.any snap.hasVec then .error .exists_
-      else .ok (s.commit b t (ids.map .addVec))
+      match checkIds (fun i => if !snap.hasObj i then some .notFound else if snap.hasVec i then some .exists_ else none) ids with
+      | some e => .error e
+      | none => .ok (s.commit b t (ids.map .addVec))
 
 /-- `Branch.DeleteVectors` -/
 def deleteVectors (s : State K V) (b : Nat) (ids : List Nat) : Except Err (State K V) :=
@@ -324,9 +340,9 @@ def deleteVectors (s : State K V) (b : Nat) (ids : List Nat) : Except Err (State
   | some t => match snapAt s.commits t with
     | .error e => .error e
     | .ok snap =>
-      if !ids.all snap.hasObj then .error .notFound
-      else if !ids.all snap.hasVec then .error .noVector
-      else .ok (s.commit b t (ids.map .delVec))
+      match checkIds (fun i => if !snap.hasObj i then some .notFound else if !snap.hasVec i then some .noVector else none) ids with
+      | some e => .error e
+      | none => .ok (s.commit b t (ids.map .delVec))
 
 /-- ids added by `acts` -/
 def addedIds : List (Action K) → List Nat
